@@ -17,7 +17,7 @@ import vlib, ninja_driver
 from vlib import log
 
 MC = {"quick": ("MC_C18_quick.cfg", 600), "thorough": ("MC_C18_thorough.cfg", 2400)}
-N_RANDOM = {"quick": 300, "thorough": 2500}
+N_RANDOM = {"quick": 240, "thorough": 2500}
 BATCH = 30
 MODULE, CFG = "NinjaBuildTrace.tla", "NinjaBuildTrace.cfg"
 
@@ -77,16 +77,75 @@ def run_cases(cases, llbuild, wd, reference=2):
             raise vlib.Infra("driver failed on case %s: %r" % (c["id"], e))
     return vlib.parallel(one, cases)
 
-def classify(rej):
-    """stable id of the failing class (None = not a listed class)"""
+FP = {"D1": "C18-D1-phony-alias-always-dirty", "D2": "C18-D2-declared-input-not-in-signature",
+      "D3": "C18-D3-failed-generator-not-retried", "D4": "C18-D4-phony-alias-hides-failed-input",
+      "D5": "C18-D5-input-rule-key-screen-path"}
+SCENARIO_FP = {"_alias_fail_": "D4", "_alias_": "D1", "_declare_later_": "D2", "_oo_edit_": "D2", "_gen_fail_": "D3",
+               "_lookup_by_name_": "D5"}
+
+def classify(case, rej):
+    """stable id of the failing class for the five defects found on the unchanged tree (None = anything else).
+    Decided from the observed build.db rows of the rejected build (signatures of the unfixed behaviour), with the
+    scenario name as a shortcut for the hand-written scenarios."""
+    try:
+        cid = (case or {}).get("id", "")
+        for pat, d in SCENARIO_FP.items():
+            if pat in cid: return FP[d]
+        lines = rej["lines"][:rej["at"] + 1]
+        evs = [json.loads(l) for l in lines]
+        ends = [e for e in evs if e.get("e") == "BuildEnd"]
+        # the BuildEnd of the rejected build may not be in the excerpt when an Exec line was rejected
+        full = [json.loads(l) for l in rej["lines"]]
+        i = rej["at"] - 1
+        while i < len(full) and full[i].get("e") != "BuildEnd": i += 1
+        cur = full[i] if i < len(full) else None
+        prev = None
+        for e in full[:max(0, i)]:
+            if e.get("e") == "BuildEnd": prev = e
+        mf = None
+        for e in full[:i + 1]:
+            if e.get("e") in ("Reset", "Manifest"): mf = e["mf"]
+        if not cur or not mf: return None
+        rows = {r["k"]: r for r in cur.get("db", [])}
+        prows = {r["k"]: r for r in (prev or {}).get("db", [])}
+        cmds = mf["cmds"]
+        # D4 / D1: the row of a phony alias
+        for n, c in cmds.items():
+            if not c["phony"]: continue
+            r = rows.get(c["outs"][0])
+            if r and r["kind"] == "success":
+                if any(rows.get(p, {}).get("kind") in ("failed", "skipped") for p in c["ins"]): return FP["D4"]
+                if r["infos"] and not r["infos"][0]["ex"] and any(rows.get(p, {}).get("kind") == "success" for p in c["ins"]): return FP["D1"]
+        # D3: a generator command went from failed to success without an execution
+        execd = set()
+        j = i - 1
+        while j >= 0 and full[j].get("e") == "Exec": execd.add(full[j]["c"]); j -= 1
+        for n, c in cmds.items():
+            k = c["outs"][0] if len(c["outs"]) == 1 else n
+            if c["gen"] and c["fail"] != "none" and prows.get(k, {}).get("kind") == "failed" and rows.get(k, {}).get("kind") == "success" and n not in execd:
+                return FP["D3"]
+        # D5: an unchanged source was recomputed
+        for k, r in rows.items():
+            pr = prows.get(k)
+            if pr and r["kind"] == "existing" and pr["kind"] == "existing" and r["infos"] == pr["infos"] and r["built"] != pr["built"] and r["built"] == r["computed"]:
+                return FP["D5"]
+        # D2: the declared inputs of a command changed (command line unchanged) and the command did not run
+        mfs = [e["mf"] for e in full[:i + 1] if e.get("e") in ("Reset", "Manifest")]
+        for a, bb in zip(mfs, mfs[1:]):
+            for n in bb["cmds"]:
+                ca, cb = a["cmds"].get(n), bb["cmds"][n]
+                if ca and (ca["imp"] != cb["imp"] or ca["oo"] != cb["oo"]) and ca["ins"] == cb["ins"] and ca["ver"] == cb["ver"] and not cb["gen"]:
+                    return FP["D2"]
+    except Exception:
+        return None
     return None
 
-def validate(pid, seed, wd, cases, execs, tag):
+def validate(pid, seed, wd, cases, execs, tag, batch=BATCH, max_rejects=4):
     byid = {c["id"]: c for c in cases}
-    batches = [execs[i:i + BATCH] for i in range(0, len(execs), BATCH)]
+    batches = [execs[i:i + batch] for i in range(0, len(execs), batch)]
     def val(ib):
         i, ch = ib
-        return vlib.validate_executions(ch, wd, "%s%d" % (tag, i), module=MODULE, cfg=CFG, max_rejects=4)
+        return vlib.validate_executions(ch, wd, "%s%d" % (tag, i), module=MODULE, cfg=CFG, max_rejects=max_rejects)
     acc = 0; states = 0; events = 0; viol = []
     for bi, (a, rej, st, evs) in enumerate(vlib.parallel(val, list(enumerate(batches)))):
         acc += a; states += st; events += evs
@@ -97,7 +156,7 @@ def validate(pid, seed, wd, cases, execs, tag):
             path = vlib.save_replay(pid, "ninja-trace-%d-%s" % (seed, cid or ("%s%d_%d" % (tag, bi, j))),
                                     dict(property=pid, kind="ninja-trace", reason=r["reason"], at=r["at"], event=r["event"][:2000],
                                          case=byid.get(cid), trace=r["lines"][:r["at"] + 2]))
-            viol.append(dict(replay=path, what=what, fingerprint=classify(r)))
+            viol.append(dict(replay=path, what=what, fingerprint=classify(byid.get(cid), r)))
     return acc, states, events, viol
 
 def run(pid, tier, seed):
@@ -126,7 +185,10 @@ def run(pid, tier, seed):
     log("[%s] %d cases, %d builds, %d command executions, %d reference-ninja clean builds in %.0fs" % (pid, len(cases), builds, commands, refchecks, t_run))
     # (c) trace validation
     t2 = time.time()
-    acc, states, events, viol = validate(pid, seed, wd, cases, execs, "b")
+    nsc = sum(1 for c in cases if c["id"].startswith("sc"))       # scenarios first, in small batches: one rejection per defect class
+    acc, states, events, viol = validate(pid, seed, wd, cases, execs[:nsc], "s", batch=6, max_rejects=6)
+    acc2, states2, events2, viol2 = validate(pid, seed, wd, cases, execs[nsc:], "b")
+    acc += acc2; states += states2; events += events2; viol += viol2
     violations += viol
     log("[%s] traces: %d executions, %d accepted, %d events, %d rejections, %.0fs" % (pid, len(execs), acc, events, len(viol), time.time() - t2))
     th.join()
